@@ -490,11 +490,15 @@ def rule_tab_special(P):
     f2 = P.func("cfg.py::CFG.__matmul__")
     r.looked_at(f1, f2)
     defs = []
+    names = []
     for f in (f1, f2):
-        d = [v for st, v in W.assignments_to(f.node, "special_rules") if v is not None]
+        d = [(n.targets[0].id, n.value) for n in walk_live(f.node) if isinstance(n, ast.Assign) and isinstance(n.targets[0], ast.Name)
+             and any(isinstance(x, ast.Call) and W.call_name(x) == "Rule" for x in ast.walk(n.value))
+             and any(isinstance(x, ast.Call) and W.call_name(x) == "Other" for x in ast.walk(n.value))]
         if len(d) != 1:
-            raise AnalysisError(f"{f.qual}: expected one definition of special_rules")
-        defs.append(d[0])
+            raise AnalysisError(f"{f.qual}: expected one definition of the special-rule table")
+        names.append(d[0][0])
+        defs.append(d[0][1])
     same = norm(defs[0]) == norm(defs[1])
     r.add(f2, defs[1], same, "" if same else f"the two copies of the special-rule table differ:\n   pass 1: {norm(defs[0])}\n   pass 2: {norm(defs[1])}",
           construct="special_rules (pass 1) == special_rules (pass 2)")
@@ -509,10 +513,10 @@ def rule_tab_special(P):
         ok = ok and shapes == want
         r.add(f, d, ok, "" if ok else f"special rules are {shapes}; expected {want}, weight self.R.one, for every terminal of self.V", slots=dict(rules=shapes))
     # both passes consume chain(self, special_rules)
-    for f in (f1, f2):
-        loops = [n for n in walk_live(f.node) if isinstance(n, ast.For) and "special_rules" in norm(n.iter)]
-        ok = len(loops) == 1 and norm(loops[0].iter) in ("itertools.chain(self, special_rules)", "chain(self, special_rules)")
-        r.add(f, loops[0] if loops else f.node, ok, "" if ok else f"{f.name} does not iterate chain(self, special_rules)")
+    for f, sn in zip((f1, f2), names):
+        loops = [n for n in walk_live(f.node) if isinstance(n, ast.For) and sn in [x.id for x in ast.walk(n.iter) if isinstance(x, ast.Name)]]
+        ok = len(loops) == 1 and norm(loops[0].iter) in (f"itertools.chain(self, {sn})", f"chain(self, {sn})")
+        r.add(f, loops[0] if loops else f.node, ok, "" if ok else f"{f.name} does not iterate chain(self, <special rules>)")
     # nullary seeds at every state
     for f in (f1, f2):
         found = []
